@@ -1233,7 +1233,13 @@ func (ex *Exec) step(st *State, fr *Frame, instr ssa.Instruction) bool {
 		i := c[0].(*Term).Val
 		tup := in.Type().(*types.Tuple)
 		if int(2*i+1) >= len(c) {
-			fr.env[in] = TupleV{False, zeroValue(tup.At(1).Type()), zeroValue(tup.At(2).Type())}
+			zv := func(t types.Type) Value {
+				if b, ok := t.(*types.Basic); ok && b.Kind() == types.Invalid {
+					return nil // unused key / value of the range statement
+				}
+				return zeroValue(t)
+			}
+			fr.env[in] = TupleV{False, zv(tup.At(1).Type()), zv(tup.At(2).Type())}
 		} else {
 			fr.env[in] = TupleV{True, c[2*i+1], c[2*i+2]}
 			nc := append([]Value(nil), c...)
@@ -2601,7 +2607,7 @@ func (ex *Exec) schedule(st *State, curRunnable bool) {
 			ex.schedule(st, curRunnable)
 			return
 		}
-		ex.finish(st, "blocked", fmt.Sprintf("no enabled thread (cur=%d) sched=%v", st.cur, st.sched), token.NoPos)
+		ex.finish(st, "blocked", "no goroutine can proceed (deadlock / a call that never returns)", token.NoPos)
 	}
 }
 
